@@ -138,6 +138,21 @@ class Evaluator:
                 else:
                     raise AnalysisError(f"{self.where}: subscript '{core.src(p)}'")
             return _index(a, idx)
+        if isinstance(e, ast.ListComp) and len(e.generators) == 1 and not e.generators[0].ifs and isinstance(e.generators[0].target, ast.Name):
+            # iterating an array yields its rows
+            it = self.ev(e.generators[0].iter)
+            if not isinstance(it, list):
+                raise AnalysisError(f"{self.where}: comprehension over a scalar")
+            out = []
+            saved = self.env.get(e.generators[0].target.id)
+            for row in it:
+                self.env[e.generators[0].target.id] = row
+                out.append(self.ev(e.elt))
+            if saved is None:
+                self.env.pop(e.generators[0].target.id, None)
+            else:
+                self.env[e.generators[0].target.id] = saved
+            return out
         if isinstance(e, ast.Call):
             f = core.src(e.func)
             if self.call_hook is not None:
@@ -146,6 +161,17 @@ class Evaluator:
                     return r
             if f in ("np.array", "np.asarray", "np.ascontiguousarray", "float", "int", "np.double", "list", "tuple") and e.args:
                 return self.ev(e.args[0])
+            if f == "np.linalg.norm" and e.args:
+                a = self.ev(e.args[0])
+                axis = [k.value for k in e.keywords if k.arg == "axis"]
+                sh = shape(a)
+                if len(sh) == 1 and not axis:
+                    return sp.sqrt(sum(x**2 for x in a))
+                if len(sh) == 2 and axis and isinstance(axis[0], ast.Constant) and axis[0].value in (0, 1, -1):
+                    if axis[0].value == 0:
+                        return [sp.sqrt(sum(a[i][j] ** 2 for i in range(sh[0]))) for j in range(sh[1])]
+                    return [sp.sqrt(sum(a[i][j] ** 2 for j in range(sh[1]))) for i in range(sh[0])]
+                raise AnalysisError(f"{self.where}: np.linalg.norm of shape {sh} with axis {core.src(axis[0]) if axis else None}")
             if f in ("np.dot", "np.matmul") and len(e.args) == 2:
                 return dot(self.ev(e.args[0]), self.ev(e.args[1]))
             if f == "np.transpose" and len(e.args) == 1:
